@@ -148,7 +148,7 @@ MOD = ['self._bytes[*]', 'self._cur_byte_idx', 'self._cur_bit_idx']
 
 BLOCKS = {
     # one iteration of the inner loop: append bit `bit_idx` of the current byte
-    'bit': dict(where='loop[0.0].body', locals=BLOCK_LOCALS, shards=6,
+    'bit': dict(where='loop[0.0].body', locals=BLOCK_LOCALS, shards=6, props=['C01', 'C12'],
                 requires=['pb_ok(self)', '0 <= bit_idx and bit_idx <= 7',
                           '0 <= byte_idx and byte_idx < len(value_bytes)'],
                 ensures=['pb_ok(self)', 'self._cur_bit_idx <= 6', 'pb_nbits(self) == old(pb_nbits(self)) + 1',
@@ -156,7 +156,7 @@ BLOCKS = {
                          'self._bytes is old(self._bytes)'],
                 modifies=MOD, lemmas=['bigend_frame']),
     # the inner loop: append the low bit_start+1 bits of the current byte, most significant first
-    'byte': dict(where='loop[0.0]', locals=BLOCK_LOCALS, shards=10,
+    'byte': dict(where='loop[0.0]', locals=BLOCK_LOCALS, shards=10, props=['C01', 'C12'],
                  requires=['pb_ok(self)', '0 <= bit_start and bit_start <= 7',
                            '0 <= byte_idx and byte_idx < len(value_bytes)'],
                  ensures=['pb_ok(self)', 'self._cur_bit_idx <= 6', 'pb_nbits(self) == old(pb_nbits(self)) + bit_start + 1',
@@ -185,7 +185,9 @@ LOOPS = {
                      f'pb_val(self) == entry(pb_val(self)) * 2 ** t + ({VB} % 2 ** (bit_start + 1)) // 2 ** (bit_start + 1 - t)']),
 }
 
-contract(PB + '.append_bits', props=['C01', 'C12'],
+contract(PB + '.append_bits', props=['C01', 'C12', 'C14'],
+         # C14 needs only: a value the field cannot hold is rejected (the layout obligations run under C01 / C12)
+         only_for={'C14': ['raises[', 'vacuity', 'cases.exhaustive', 'no-', 'unexpected']},
          requires=['pb_ok(self)', '1 <= bit_size', 'bit_size <= 64', "endian == 'big' or endian == 'little'"],
          raises={'OverflowError': 'not fits_width(value, bit_size)'},
          ensures=APPEND_POST,
